@@ -4,7 +4,12 @@
    This file holds property statements only; each is closed by [exact].
 
    Vocabulary (model/Walk.v, spec/WalkSpec.v):
-     l : listing                 the input tree: path -> file (contents, mtime) | directory
+     l : listing                 the input tree: path -> file (contents, mtime) | directory; a modification time is
+                                 any integer (Z, nanoseconds relative to the Unix epoch): before the epoch, the
+                                 epoch, equal times, times one nanosecond apart, the far future - no sign or
+                                 size assumption anywhere; the one condition (wf_tree, mtime_ok) is that a template
+                                 outside skipped directories is dated after Go's zero time.Time (year 1), without
+                                 which the statement is false: C15_zero_time_refuted
      generate                    oracle: parse + generate + gofmt of one file alone (None = cannot be generated)
      es                          the events of the run: everything WalkFiles emits, each once, plus possibly
                                  _templ.go files created by a handler while the walk was still going
@@ -14,14 +19,14 @@
      spec_holds l T failed       contents of every path as the property demands, nothing else touched (mtime
                                  included), failed <-> some template outside skipped directories cannot be generated *)
 From Coq.Strings Require Import Byte String.
-From Coq Require Import List NArith Bool Permutation.
+From Coq Require Import List NArith ZArith Bool Permutation.
 Import ListNotations.
 From V Require Import lib.Bytes model.Walk spec.WalkSpec proofs.WalkProof.
 
 (* For every well-formed tree - whatever the root directory is called - every worker count, flag set and complete
    interleaved run: the final tree and exit status are the ones the property demands. *)
 Theorem C15_generate_spec :
-  forall (generate : path -> bytes -> option bytes) (keep lazy : bool) (now : N)
+  forall (generate : path -> bytes -> option bytes) (keep lazy : bool) (now : Z)
          (root : bytes) (l : listing) (w : nat) (es : list path) (c : cfg),
   wf_tree generate lazy root l = true ->
   (1 <= w)%nat ->
@@ -37,11 +42,11 @@ Print Assumptions C15_generate_spec.
    and the specification fails - the template has no sibling.  The harness reports that behaviour under the shape
    root-dir-name-skipped. *)
 Definition ex_gen : path -> bytes -> option bytes := fun _ _ => Some (bs "code").
-Definition ex_tree : listing := [(([], bs "a.templ"), File (bs "src") 1%N)].
+Definition ex_tree : listing := [(([], bs "a.templ"), File (bs "src") 1%Z)].
 Lemma C15_root_tested_variant_refuted :
   exists (root : bytes) (c : cfg),
     wf_tree ex_gen false root ex_tree = true /\ should_skip_name root = true /\
-    steps ex_gen false false 5%N 1 (start_cfg (lookup ex_tree) (walk_root_tested root ex_tree)) c /\ finished c /\
+    steps ex_gen false false 5%Z 1 (start_cfg (lookup ex_tree) (walk_root_tested root ex_tree)) c /\ finished c /\
     exit_fail (cerrs c) = false /\
     ~ spec_holds ex_gen false ex_tree (ctree c) (exit_fail (cerrs c)).
 Proof.
@@ -53,13 +58,76 @@ Qed.
 (* the current walk does not look at the root's name *)
 Example C15_ex_root_name_irrelevant :
   walk ex_tree = [([], bs "a.templ")]
-  /\ tree (run ex_gen false false 5%N (init (lookup ex_tree)) (walk ex_tree)) ([], bs "a_templ.go") = Some (File (bs "code") 5%N).
+  /\ tree (run ex_gen false false 5%Z (init (lookup ex_tree)) (walk ex_tree)) ([], bs "a_templ.go") = Some (File (bs "code") 5%Z).
 Proof. vm_compute. split; reflexivity. Qed.
+
+(* MODIFICATION TIMES.  UpsertLastModTime compares a file's time with the zero time.Time when it sees the file for
+   the first time; a template dated at or before 0001-01-01T00:00:00Z is "not updated": the command succeeds and
+   the template has no sibling - the full statement (no condition on times) is false of the model, and of the real
+   command on a file system that can hold such a time (tmpfs; observed by the harness when one is available). *)
+Definition ex_zero_tree (mt : Z) : listing := [(([], bs "a.templ"), File (bs "src") mt)].
+Lemma C15_zero_time_refuted :
+  exists (c : cfg),
+    steps ex_gen false false 5%Z 1 (start_cfg (lookup (ex_zero_tree go_zero_time)) (walk (ex_zero_tree go_zero_time))) c
+    /\ finished c /\ exit_fail (cerrs c) = false
+    /\ ~ spec_holds ex_gen false (ex_zero_tree go_zero_time) (ctree c) (exit_fail (cerrs c)).
+Proof.
+  eexists. split; [apply (sequential_steps ex_gen false false 5%Z 1); apply le_n|].
+  split; [split; reflexivity|]. split; [vm_compute; reflexivity|].
+  intros [H _]. specialize (H ([], bs "a_templ.go")). vm_compute in H. discriminate H.
+Qed.
+(* every later time is admitted by wf_tree and the template is generated: one nanosecond after the zero time, long
+   before the Unix epoch, one nanosecond before it, the epoch itself, beyond the range of a 64-bit nanosecond count;
+   and the time given to the written file may itself be negative *)
+Example C15_ex_any_time :
+  forall mt, In mt [(go_zero_time + 1)%Z; (-2147483648000000000)%Z; (-1)%Z; 0%Z; 1%Z; 9223372036854775807%Z;
+                    9223372036854775808%Z; 15032385535999999999%Z; 1180591620717411303424%Z] ->
+  wf_tree ex_gen true (bs "proj") (ex_zero_tree mt) = true
+  /\ tree (run ex_gen false true (-7)%Z (init (lookup (ex_zero_tree mt))) (walk (ex_zero_tree mt))) ([], bs "a_templ.go")
+     = Some (File (bs "code") (-7)%Z).
+Proof. intros mt H. cbn [In] in H. repeat (destruct H as [<-|H]; [vm_compute; split; reflexivity|]). destruct H. Qed.
+(* -lazy compares the two times as integers: an up-to-date sibling one nanosecond newer than a template dated before
+   the epoch is left alone (its own time kept); the same age or older, it is written again *)
+Definition ex_lazy_tree (mt gmt : Z) : listing :=
+  [(([], bs "a.templ"), File (bs "src") mt); (([], bs "a_templ.go"), File (bs "code") gmt)].
+Example C15_ex_lazy_negative_times :
+  let after mt gmt := tree (run ex_gen false true 99%Z (init (lookup (ex_lazy_tree mt gmt))) (walk (ex_lazy_tree mt gmt))) ([], bs "a_templ.go") in
+  after (-5)%Z (-4)%Z = Some (File (bs "code") (-4)%Z)
+  /\ after (-5)%Z (-5)%Z = Some (File (bs "code") 99%Z)
+  /\ after (-5)%Z (-6)%Z = Some (File (bs "code") 99%Z)
+  /\ after 0%Z 1%Z = Some (File (bs "code") 1%Z)
+  /\ after (-1)%Z 0%Z = Some (File (bs "code") 0%Z)
+  /\ after 9223372036854775808%Z 9223372036854775807%Z = Some (File (bs "code") 99%Z).
+Proof. vm_compute. repeat split; reflexivity. Qed.
+
+(* Modification times decide nothing: two well-formed trees with the same contents at every path - their times as
+   different as one likes: before or after the epoch, equal, a nanosecond or centuries apart - run with any -lazy
+   settings, clocks, worker counts and interleavings, end with the same contents at every path and the same exit
+   status. *)
+Theorem C15_times_irrelevant :
+  forall (generate : path -> bytes -> option bytes) (keep lazy lazy' : bool) (now now' : Z)
+         (root root' : bytes) (l l' : listing) (w w' : nat) (es es' : list path) (c c' : cfg),
+  wf_tree generate lazy root l = true -> wf_tree generate lazy' root' l' = true ->
+  (forall q, content_of (lookup l q) = content_of (lookup l' q)) ->
+  NoDup es /\ (forall p, In p (walk l) -> In p es)
+           /\ (forall p, In p es -> In p (walk l) \/ late_gen (lookup l) p) ->
+  NoDup es' /\ (forall p, In p (walk l') -> In p es')
+            /\ (forall p, In p es' -> In p (walk l') \/ late_gen (lookup l') p) ->
+  steps generate keep lazy now w (start_cfg (lookup l) es) c -> finished c ->
+  steps generate keep lazy' now' w' (start_cfg (lookup l') es') c' -> finished c' ->
+  (forall q, content_of (ctree c q) = content_of (ctree c' q)) /\ exit_fail (cerrs c) = exit_fail (cerrs c').
+Proof.
+  intros g k z z' n n' root root' l l' w w' es es' c c' WF WF' H EV EV' St Fi St' Fi'.
+  exact (spec_times_irrelevant g k l l' _ _ _ _ H
+           (generate_spec g k z n root l w es c WF EV St Fi)
+           (generate_spec g k z' n' root' l' w' es' c' WF' EV' St' Fi')).
+Qed.
+Print Assumptions C15_times_irrelevant.
 
 (* Any two complete interleavings - any worker counts, any order in which the events reach the handlers - end in
    the same tree with the same error count.  No hypothesis on the tree. *)
 Theorem C15_schedule_independent :
-  forall (generate : path -> bytes -> option bytes) (keep lazy : bool) (now : N)
+  forall (generate : path -> bytes -> option bytes) (keep lazy : bool) (now : Z)
          (t : fs) (es es' : list path) (w w' : nat) (c c' : cfg),
   NoDup es -> Permutation es es' ->
   steps generate keep lazy now w (start_cfg t es) c -> finished c ->
@@ -71,9 +139,9 @@ Print Assumptions C15_schedule_independent.
 (* Running the command again on the tree the first run left (listed by l1), at any later time, with any worker
    count, leaves the contents of every path unchanged. *)
 Theorem C15_second_run_noop :
-  forall (generate : path -> bytes -> option bytes) (keep lazy : bool) (now : N)
+  forall (generate : path -> bytes -> option bytes) (keep lazy : bool) (now : Z)
          (root : bytes) (l : listing) (w : nat) (es : list path) (c : cfg)
-         (now2 : N) (w2 : nat) (l1 : listing) (es2 : list path) (c2 : cfg),
+         (now2 : Z) (w2 : nat) (l1 : listing) (es2 : list path) (c2 : cfg),
   wf_tree generate lazy root l = true ->
   NoDup es /\ (forall p, In p (walk l) -> In p es)
            /\ (forall p, In p es -> In p (walk l) \/ late_gen (lookup l) p) ->
@@ -90,7 +158,7 @@ Print Assumptions C15_second_run_noop.
    cannot be written because a directory sits at the sibling path - makes the command fail, and every other
    template outside skipped directories that can be generated and written still gets its sibling. *)
 Theorem C15_failure_isolated :
-  forall (generate : path -> bytes -> option bytes) (keep lazy : bool) (now : N)
+  forall (generate : path -> bytes -> option bytes) (keep lazy : bool) (now : Z)
          (root : bytes) (l : listing) (w : nat) (es : list path) (c : cfg),
   wf_tree generate lazy root l = true -> (1 <= w)%nat ->
   NoDup es /\ (forall p, In p (walk l) -> In p es)
@@ -109,7 +177,7 @@ Print Assumptions C15_failure_isolated.
 (* Only _templ.go siblings outside skipped directories are ever written or removed: every other path keeps its
    entry exactly (contents and modification time). *)
 Theorem C15_untouched :
-  forall (generate : path -> bytes -> option bytes) (keep lazy : bool) (now : N)
+  forall (generate : path -> bytes -> option bytes) (keep lazy : bool) (now : Z)
          (root : bytes) (l : listing) (w : nat) (es : list path) (c : cfg),
   wf_tree generate lazy root l = true -> (1 <= w)%nat ->
   NoDup es /\ (forall p, In p (walk l) -> In p es)
@@ -145,18 +213,18 @@ Proof. intros l ND. exact (walk_events_ok l ND). Qed.
 Definition ex2_gen : path -> bytes -> option bytes :=
   fun p c => if bytes_eqb c (bs "bad") then None else Some (bs "go:" ++ c).
 Definition ex2_tree : listing :=
-  [ (([], bs "a.templ"), File (bs "A") 10%N);
-    (([], bs "b.templ"), File (bs "bad") 10%N);
-    (([], bs "old_templ.go"), File (bs "stale") 3%N);
+  [ (([], bs "a.templ"), File (bs "A") 10%Z);
+    (([], bs "b.templ"), File (bs "bad") 10%Z);
+    (([], bs "old_templ.go"), File (bs "stale") 3%Z);
     (([], bs "vendor"), Dir);
-    (([bs "vendor"], bs "v.templ"), File (bs "V") 10%N);
-    (([], bs "main.go"), File (bs "package main") 2%N) ].
+    (([bs "vendor"], bs "v.templ"), File (bs "V") 10%Z);
+    (([], bs "main.go"), File (bs "package main") 2%Z) ].
 Example C15_ex_wf : wf_tree ex2_gen true (bs "site") ex2_tree = true /\ wf_tree ex2_gen true (bs "_site") ex2_tree = true.
 Proof. split; vm_compute; reflexivity. Qed.
 Example C15_ex_run :
-  let st := run ex2_gen false false 99%N (init (lookup ex2_tree)) (walk ex2_tree) in
+  let st := run ex2_gen false false 99%Z (init (lookup ex2_tree)) (walk ex2_tree) in
   walk ex2_tree = [([], bs "a.templ"); ([], bs "b.templ"); ([], bs "main.go"); ([], bs "old_templ.go")]
-  /\ tree st ([], bs "a_templ.go") = Some (File (bs "go:A") 99%N)
+  /\ tree st ([], bs "a_templ.go") = Some (File (bs "go:A") 99%Z)
   /\ tree st ([], bs "b_templ.go") = None
   /\ tree st ([], bs "old_templ.go") = None
   /\ tree st ([bs "vendor"], bs "v_templ.go") = None
@@ -165,18 +233,18 @@ Proof. vm_compute. repeat split; reflexivity. Qed.
 
 (* an output path blocked by a (non-empty) directory: that template fails, the directory stays, the others are generated *)
 Definition ex3_tree : listing :=
-  [ (([], bs "a.templ"), File (bs "A") 10%N);
+  [ (([], bs "a.templ"), File (bs "A") 10%Z);
     (([], bs "a_templ.go"), Dir);
-    (([bs "a_templ.go"], bs "keep.txt"), File (bs "k") 1%N);
-    (([], bs "b.templ"), File (bs "B") 10%N);
+    (([bs "a_templ.go"], bs "keep.txt"), File (bs "k") 1%Z);
+    (([], bs "b.templ"), File (bs "B") 10%Z);
     (([], bs "z_templ.go"), Dir);
-    (([bs "z_templ.go"], bs "keep.txt"), File (bs "k") 1%N) ].
+    (([bs "z_templ.go"], bs "keep.txt"), File (bs "k") 1%Z) ].
 Example C15_ex_blocked_output :
-  let st := run ex2_gen false false 99%N (init (lookup ex3_tree)) (walk ex3_tree) in
+  let st := run ex2_gen false false 99%Z (init (lookup ex3_tree)) (walk ex3_tree) in
   wf_tree ex2_gen false (bs "site") ex3_tree = true
   /\ fails ex2_gen (lookup ex3_tree) ([], bs "a.templ") = true
   /\ tree st ([], bs "a_templ.go") = Some Dir
   /\ tree st ([], bs "z_templ.go") = Some Dir
-  /\ tree st ([], bs "b_templ.go") = Some (File (bs "go:B") 99%N)
+  /\ tree st ([], bs "b_templ.go") = Some (File (bs "go:B") 99%Z)
   /\ exit_fail (errs st) = true.
 Proof. vm_compute. repeat split; reflexivity. Qed.
